@@ -634,7 +634,9 @@ func (c *Ctx) c10Views() {
 					a := pointee(ev.Args[0])
 					// every callback gets an entry of its own: the record is built inside the iteration that hands it out (one record
 					// allocated before the loops and overwritten per item makes every Entry a caller kept show the last item's expiry)
-					if a != nil && ev.Loop != nil && a.Pos.IsValid() && (a.Pos < ev.Loop.Pos() || a.Pos > ev.Loop.End()) {
+					// (decided by creation order on the path: the record is younger than the iterated entry it copies — source positions
+					// would misjudge a loop body that lives in a closure handed to an iteration helper)
+					if kv := p.FieldOf(a, "K"); a != nil && kv != nil && kv.Src != nil && kv.Src.Kind == pw.KRangeVal && a.ID < kv.Src.ID {
 						r.Bad("R10.5", "shardedMapLegacyWalkerOf.Walk", "entry-reused-across-callbacks", c.Pos(ev.Pos), "the record handed to the callback is allocated outside the loop over the entries: all callbacks receive one and the same record", shortTrace(p))
 						bad = true
 					}
